@@ -28,7 +28,7 @@ pub fn gstr(s: &str) -> String {
             }
             let _ = write!(out, "{}", b);
         }
-        out.push_str("])");
+        out.push_str("]%N)");
         out
     }
 }
